@@ -21,8 +21,8 @@ func init() {
 				"with the `end` fact), the body never runs for an end result, the else list runs only when the first Range() reported end and ElseList != nil; every conjunct of the loop condition other " +
 				"than !end is reported. (C05.bind) the key/value variables are bound (by := or =) to indexValue/rangeValue of the current element under keyVarSlot/valVarSlot >= 0, '.' becomes the " +
 				"element exactly when no value variable exists, and a two-variable range over an index-less ranger reaches a no-return error. (C05.pool) pooled rangers: Setup assigns every field, no " +
-				"use after cleanup, objects come from the pool, every pool has a reset discipline. (C05.rangers) each built-in Range advances its cursor exactly once on the non-end path and not at " +
-				"all on the end path, and reads the element before advancing. (C05.elseif) `else if` builds an else list holding exactly the nested if without consuming another {{end}}; range does " +
+				"use after cleanup, objects come from the pool, every pool has a reset discipline. (C05.rangers) each built-in Range advances its cursor exactly once on the non-end path (at most once where it reports the end) " +
+				"and reads the element before advancing. (C05.elseif) `else if` builds an else list holding exactly the nested if without consuming another {{end}}; range does " +
 				"not allow else-if. (C05.truth) every return of isTrue equals v.IsValid() && !v.IsZero() under the facts of its path, so the branch an if chain takes depends on nothing but `valid and not the zero value` (false, 0, \"\", nil). (C05.bind, continued) whether '.' is replaced depends on the number of loop variables only, never on what a variable is called; '.' and the loop variables receive the element unwrapped from its interface, and Runtime.resolve unwraps what it reads from the scope chain (shared with C06.same).",
 			NotDecided:  "ints(a,b) arithmetic, map iteration order, channel blocking, user-defined Rangers, reflect.Value.IsZero itself (trusted: zero value of the kind).",
 			Assumptions: []string{"a Ranger's Range() result is meaningful only until the next call (interface contract)"},
@@ -199,7 +199,7 @@ func runC05(c *an.Ctx) {
 			if !ok {
 				return true
 			}
-			if sel, ok := an.Unparen(ix.X).(*ast.SelectorExpr); ok && sel.Sel.Name == "Left" {
+			if sel, ok := through(ix.X, 0).(*ast.SelectorExpr); ok && sel.Sel.Name == "Left" { // (also a helper's parameter bound to the list)
 				if inner, ok := through(sel.X, 0).(*ast.SelectorExpr); ok && inner.Sel.Name == "Set" && typeOf(inner.X) == "*jet.RangeNode" {
 					if id, ok := through(ix.Index, 0).(*ast.Ident); ok {
 						slot = id
@@ -643,9 +643,11 @@ func c05rangers(c *an.Ctx) {
 				endPath = an.FactIs(ex.State, an.RoleOf(f.Sig.Results().At(2)), true)
 			}
 			switch {
-			case endPath && total != 0:
-				ok, why = false, "advances its cursor on the path that reports end"
+			case endPath && over:
+				ok, why = false, "advances a cursor more than once in one call"
 			case endPath:
+				// (a ranger that learns it is exhausted by advancing — a channel receive, a counter compared after
+				// the increment — has moved its cursor on this path too; nothing is produced from it)
 			case over:
 				ok, why = false, "advances a cursor more than once in one call"
 			case total == 0:
